@@ -6,6 +6,8 @@ import (
 	"go/importer"
 	"go/token"
 	"go/types"
+	"os"
+	"path/filepath"
 	"sort"
 	"strings"
 )
@@ -54,6 +56,10 @@ type c06 struct {
 	alias map[types.Object]string
 	// lockedHelpers: unexported helpers that run only inside GlobCache.Get's critical section
 	lockedHelpers map[types.Object]bool
+	// paramAlias: parameters of in-package functions that receive, at some call site of the analysed reach, a
+	// reference into shared memory (`promote(rules, i)` with `rules := t.accessRules[tag]`): inside the callee the
+	// parameter denotes that memory. Conservative: one shared call site makes the parameter shared.
+	paramAlias map[types.Object]string
 }
 
 func c06FuncName(fd *ast.FuncDecl) string {
@@ -186,6 +192,9 @@ func (c *c06) describe(e ast.Expr) string {
 				return "var:" + c.varKind(vr)
 			}
 			if a, ok := c.alias[o]; ok {
+				return a
+			}
+			if a, ok := c.paramAlias[o]; ok {
 				return a
 			}
 		}
@@ -579,6 +588,7 @@ func (c *c06) writes(fd *ast.FuncDecl, recvLocal bool) []c06Write {
 		}
 		return true
 	})
+	out = append(out, c.foreignCallWrites(fd, name, isCopyWrite, hasLock, lockPos)...)
 	return out
 }
 
@@ -761,6 +771,248 @@ func (c *c06) funcsInVar(dir, name string) []types.Object {
 		}
 		return true
 	})
+	return out
+}
+
+
+// refLike: the static type of e can carry a reference into the memory e is rooted in (slice, map, pointer, channel,
+// interface, function — or a foreign type the stub importer could not resolve); strings and numbers are values.
+func (c *c06) refLike(e ast.Expr) bool {
+	tv, ok := c.info.Types[e]
+	if !ok || tv.Type == nil {
+		return true
+	}
+	switch u := tv.Type.Underlying().(type) {
+	case *types.Basic:
+		return u.Kind() == types.Invalid
+	case *types.Struct, *types.Array:
+		return false // passed by value
+	}
+	return true
+}
+
+// paramObjs: the parameter objects of an in-package function, in order.
+func (c *c06) paramObjs(fd *ast.FuncDecl) []types.Object {
+	var out []types.Object
+	if fd.Type == nil || fd.Type.Params == nil {
+		return nil
+	}
+	for _, f := range fd.Type.Params.List {
+		if len(f.Names) == 0 {
+			out = append(out, nil)
+		}
+		for _, n := range f.Names {
+			out = append(out, c.info.Defs[n])
+		}
+	}
+	return out
+}
+
+// bindParams propagates shared references through in-package calls: for every call `f(a0, a1, …)` in the functions
+// of `order` whose argument a_i is a reference rooted in shared memory, the i-th parameter of f is recorded as an
+// alias of that memory. Iterated to a fixpoint (aliases travel through chains of helpers).
+func (c *c06) bindParams(order []types.Object) {
+	if c.paramAlias == nil {
+		c.paramAlias = map[types.Object]string{}
+	}
+	for pass := 0; pass < 6; pass++ {
+		changed := false
+		for _, o := range order {
+			fd := c.funcs[o]
+			if fd == nil || fd.Body == nil {
+				continue
+			}
+			c.computeAliases(fd)
+			ast.Inspect(fd.Body, func(n ast.Node) bool {
+				call, ok := n.(*ast.CallExpr)
+				if !ok {
+					return true
+				}
+				var callee types.Object
+				switch f := call.Fun.(type) {
+				case *ast.Ident:
+					callee = c.info.Uses[f]
+				case *ast.SelectorExpr:
+					callee = c.info.Uses[f.Sel]
+				}
+				cfd, ok := c.funcs[callee]
+				if !ok {
+					return true
+				}
+				ps := c.paramObjs(cfd)
+				for i, a := range call.Args {
+					if i >= len(ps) || ps[i] == nil {
+						break
+					}
+					if !c.refLike(a) {
+						continue
+					}
+					if d := c.describe(a); d != "" {
+						if _, have := c.paramAlias[ps[i]]; !have {
+							c.paramAlias[ps[i]] = d
+							changed = true
+						}
+					}
+				}
+				return true
+			})
+		}
+		if !changed {
+			break
+		}
+	}
+}
+
+// c06PureFuncs: functions of foreign packages (and builtins) that do not write through their arguments. Every other
+// foreign function that is handed a reference rooted in shared memory (`sort.Slice(r.Targets, …)`,
+// `copy(t.ring, …)`, `rand.Shuffle`, `append(r.wTargets, …)` — which may write into the shared backing array) is
+// reported as a "call" write.
+var c06PurePkgs = map[string]bool{"fmt": true, "log": true, "strings": true, "strconv": true, "errors": true,
+	"bytes": true, "path": true, "filepath": true, "utf8": true, "unicode": true, "math": true, "time": true}
+var c06PureFuncs = map[string]bool{"len": true, "cap": true, "panic": true, "print": true, "println": true,
+	"string": true, "float64": true, "int": true, "uint64": true, "int64": true, "uint": true,
+	"sort.SearchStrings": true, "sort.SearchInts": true, "sort.Search": true, "sort.IsSorted": true,
+	"sort.SliceIsSorted": true, "sort.StringsAreSorted": true,
+	"slices.Contains": true, "slices.Index": true, "slices.Equal": true, "slices.Clone": true, "slices.IndexFunc": true,
+	"slices.ContainsFunc": true, "slices.BinarySearch": true, "maps.Clone": true, "maps.Keys": true, "maps.Values": true,
+	"net.SplitHostPort": true, "net.ParseIP": true, "net.JoinHostPort": true,
+	"url.Parse": true, "url.QueryUnescape": true, "url.PathUnescape": true,
+	"atomic.LoadUint64": true, "atomic.LoadInt64": true, "atomic.LoadUint32": true, "atomic.LoadInt32": true, "atomic.LoadPointer": true,
+	"reflect.DeepEqual": true, "reflect.TypeOf": true, "reflect.ValueOf": true, "http.Error": true, "http.Redirect": true}
+
+// foreignCallWrites: calls of foreign functions / builtins in fd that receive a reference rooted in shared memory.
+func (c *c06) foreignCallWrites(fd *ast.FuncDecl, name string, isCopy func(ast.Expr) bool, hasLock bool, lockPos token.Pos) []c06Write {
+	var out []c06Write
+	ast.Inspect(fd.Body, func(n ast.Node) bool {
+		call, ok := n.(*ast.CallExpr)
+		if !ok {
+			return true
+		}
+		fn := ""
+		switch f := call.Fun.(type) {
+		case *ast.Ident:
+			if o := c.info.Uses[f]; o != nil {
+				if _, isB := o.(*types.Builtin); !isB {
+					return true // in-package function, conversion to a named type, local func value
+				}
+			}
+			fn = f.Name
+		case *ast.SelectorExpr:
+			pk, ok := f.X.(*ast.Ident)
+			if !ok {
+				return true
+			}
+			if _, isPkg := c.info.Uses[pk].(*types.PkgName); !isPkg {
+				return true
+			}
+			if c06PurePkgs[pk.Name] {
+				return true
+			}
+			fn = pk.Name + "." + f.Sel.Name
+			if pk.Name == "atomic" && c06Atomic[f.Sel.Name] {
+				return true // reported as kind "atomic"
+			}
+		default:
+			return true
+		}
+		if c06PureFuncs[fn] {
+			return true
+		}
+		for _, a := range call.Args {
+			if _, isFn := a.(*ast.FuncLit); isFn {
+				continue
+			}
+			if !c.refLike(a) {
+				continue
+			}
+			d := c.describe(a)
+			if d == "" {
+				continue
+			}
+			kind := "call"
+			if isCopy(a) {
+				kind = "copy"
+			} else if hasLock && call.Pos() > lockPos {
+				kind = "locked"
+			}
+			out = append(out, c06Write{name, kind, fn + "(" + d + ")"})
+		}
+		return true
+	})
+	return out
+}
+
+
+// externalMethodRoots: exported methods with receiver Table / Route / Target that some non-test, non-verif file of
+// another package of the repository (one that imports package route) calls, matched by method name.
+func (c *c06) externalMethodRoots() []types.Object {
+	byName := map[string][]types.Object{}
+	for o, fd := range c.funcs {
+		if fd.Recv == nil || !fd.Name.IsExported() {
+			continue
+		}
+		n := c06FuncName(fd)
+		if strings.HasPrefix(n, "Table.") || strings.HasPrefix(n, "Route.") || strings.HasPrefix(n, "Target.") {
+			byName[fd.Name.Name] = append(byName[fd.Name.Name], o)
+		}
+	}
+	called := map[types.Object]bool{}
+	var dirs []string
+	filepath.WalkDir(c.x.repo, func(p string, d os.DirEntry, err error) error {
+		if err != nil || !d.IsDir() {
+			return nil
+		}
+		b := d.Name()
+		if p != c.x.repo && (strings.HasPrefix(b, ".") || strings.HasPrefix(b, "_") || b == "vendor" || b == "docs" || b == "demo" || b == "testdata") {
+			return filepath.SkipDir
+		}
+		rel, _ := filepath.Rel(c.x.repo, p)
+		if rel != "route" {
+			dirs = append(dirs, rel)
+		}
+		return nil
+	})
+	sort.Strings(dirs)
+	for _, dir := range dirs {
+		ents, _ := os.ReadDir(filepath.Join(c.x.repo, dir))
+		hasGo := false
+		for _, e := range ents {
+			if !e.IsDir() && strings.HasSuffix(e.Name(), ".go") && !strings.HasSuffix(e.Name(), "_test.go") && !strings.HasPrefix(e.Name(), "verif_") {
+				hasGo = true
+			}
+		}
+		if !hasGo {
+			continue
+		}
+		for _, f := range c.x.files(dir) {
+			imports := false
+			for _, im := range f.Imports {
+				if strings.Trim(im.Path.Value, `"`) == "github.com/fabiolb/fabio/route" {
+					imports = true
+				}
+			}
+			if !imports {
+				continue
+			}
+			ast.Inspect(f, func(n ast.Node) bool {
+				call, ok := n.(*ast.CallExpr)
+				if !ok {
+					return true
+				}
+				if se, ok := call.Fun.(*ast.SelectorExpr); ok {
+					for _, o := range byName[se.Sel.Name] {
+						called[o] = true
+					}
+				}
+				return true
+			})
+		}
+	}
+	var out []types.Object
+	for o := range called {
+		out = append(out, o)
+	}
+	sort.Slice(out, func(i, j int) bool { return c06FuncName(c.funcs[out[i]]) < c06FuncName(c.funcs[out[j]]) })
 	return out
 }
 
@@ -1048,6 +1300,19 @@ func init() {
 		}
 		roots = append(roots, c.funcsInVar("route", "Picker")...)
 		roots = append(roots, c.funcsInVar("route", "Matcher")...)
+		// everything the other packages of the repository call on a table / route / target they did not build
+		// themselves: exported methods of Table, Route and Target that are called (by name) from a file outside
+		// package route which imports it — the lookup entry points again, the access gates of the TCP and gRPC
+		// proxies, and the readers of the PUBLISHED table (main.go logs `t.Dump()` after `route.SetTable(t)`, the
+		// admin API prints `route.GetTable().String()`). They run next to the lookups on the same memory.
+		readers := c.externalMethodRoots()
+		var readerNames []string
+		for _, o := range readers {
+			roots = append(roots, o)
+			readerNames = append(readerNames, c06FuncName(c.funcs[o]))
+		}
+		sort.Strings(readerNames)
+		x.defStrList("publishedReaders", readerNames)
 		seen := map[types.Object]bool{}
 		var order []types.Object
 		var walk func(o types.Object)
@@ -1089,6 +1354,7 @@ func init() {
 				return true
 			})
 		}
+		c.bindParams(order)
 		var ws []c06Write
 		var reach []string
 		for _, o := range order {
